@@ -56,6 +56,17 @@ CHECKS = {
              'int widths, float, half-integers, string widths. NaN / -0.0 keys not explored.',
         technique='TLA+ spec + TLC; behaviour replay into real Data joins under storage variants',
         design='7/C11'),
+    'C17': dict(
+        text='DataStruct.tla models one dataset as the ordered list of its components (main/derived/pixel/world), coordinates, '
+             'shape, label and hub attachment, and states for every call what must be announced (component-specific messages '
+             'exactly, generic ones at least once, nothing when the call changed nothing or raised). TLC checks the structural '
+             'clauses on the spec and enumerates every history of valid and invalid calls to a depth plus random walks; each runs '
+             'on a real Data (inside a DataCollection with a recording listener) and component order/kinds, shape, label, '
+             'uniqueness, pixel/world counts, per-component shapes, lookup by name and the announcements are compared per step.',
+        note='Bounded: 3 stored + 3 derived attributes, 2-d, 3 coordinate kinds, depth 4-5 exhaustive + random walks. update_id / '
+             'rename only for attributes without dependants; refresh from a dataset of the same dimensionality.',
+        technique='TLA+ spec + TLC; behaviour replay into real Data with a hub message recorder',
+        design='7/C17'),
 }
 
 NOT_APPLICABLE = {}
